@@ -25,7 +25,7 @@ structure Tfhd where
   deriving DecidableEq, Repr
 
 def optBound (c : Bool) (bound v : Nat) : Prop := if c then v < bound else v = 0
-instance (c : Bool) (b v : Nat) : Decidable (optBound c b v) := by unfold optBound; infer_instance
+instance instFrag1 (c : Bool) (b v : Nat) : Decidable (optBound c b v) := by unfold optBound; infer_instance
 
 def Tfhd.Wf (x : Tfhd) : Prop :=
   x.version < 256 ∧ x.flags < 16777216 ∧ x.track_id < 4294967296 ∧
@@ -34,7 +34,7 @@ def Tfhd.Wf (x : Tfhd) : Prop :=
   optBound (hasBit x.flags 3) 4294967296 x.default_sample_duration ∧
   optBound (hasBit x.flags 4) 4294967296 x.default_sample_size ∧
   optBound (hasBit x.flags 5) 4294967296 x.default_sample_flags
-instance (x : Tfhd) : Decidable x.Wf := by unfold Tfhd.Wf; infer_instance
+instance instFrag2 (x : Tfhd) : Decidable x.Wf := by unfold Tfhd.Wf; infer_instance
 
 def encTfhd (x : Tfhd) : Bytes :=
   encU8 x.version ++ (encU24 x.flags ++ (encU32 x.track_id ++
@@ -82,14 +82,14 @@ def decOptI (c : Bool) (dec : Bytes → Option (Int × Bytes)) (bs : Bytes) : Op
 def ctoOk (present signed : Bool) (v : Int) : Prop :=
   if present then (if signed then -2147483648 ≤ v ∧ v < 2147483648 else 0 ≤ v ∧ v < 4294967296)
   else v = 0
-instance (p s : Bool) (v : Int) : Decidable (ctoOk p s v) := by unfold ctoOk; infer_instance
+instance instFrag3 (p s : Bool) (v : Int) : Decidable (ctoOk p s v) := by unfold ctoOk; infer_instance
 
 def TrunSample.Wf (flags version : Nat) (s : TrunSample) : Prop :=
   optBound (hasBit flags 8) 4294967296 s.duration ∧
   optBound (hasBit flags 9) 4294967296 s.size ∧
   optBound (hasBit flags 10) 4294967296 s.flags ∧
   ctoOk (hasBit flags 11) (version != 0) s.composition_time_offset
-instance (f v : Nat) (s : TrunSample) : Decidable (s.Wf f v) := by
+instance instFrag4 (f v : Nat) (s : TrunSample) : Decidable (s.Wf f v) := by
   unfold TrunSample.Wf; infer_instance
 
 /-- `TrackSample.encode` – mp4.py:2696-2709 -/
@@ -118,7 +118,7 @@ structure Trun where
 
 def i32Ok (present : Bool) (v : Int) : Prop :=
   if present then -2147483648 ≤ v ∧ v < 2147483648 else v = 0
-instance (p : Bool) (v : Int) : Decidable (i32Ok p v) := by unfold i32Ok; infer_instance
+instance instFrag5 (p : Bool) (v : Int) : Decidable (i32Ok p v) := by unfold i32Ok; infer_instance
 
 def Trun.Wf (x : Trun) : Prop :=
   x.version < 256 ∧ x.flags < 16777216 ∧ x.sample_count < 4294967296 ∧
@@ -126,7 +126,7 @@ def Trun.Wf (x : Trun) : Prop :=
   i32Ok (hasBit x.flags 0) x.data_offset ∧
   optBound (hasBit x.flags 2) 4294967296 x.first_sample_flags ∧
   ∀ s ∈ x.samples, s.Wf x.flags x.version
-instance (x : Trun) : Decidable x.Wf := by unfold Trun.Wf; infer_instance
+instance instFrag6 (x : Trun) : Decidable x.Wf := by unfold Trun.Wf; infer_instance
 
 def encTrun (x : Trun) : Bytes :=
   encU8 x.version ++ (encU24 x.flags ++ (encU32 x.sample_count ++
@@ -165,7 +165,7 @@ def Saiz.Wf (x : Saiz) : Prop :=
   (if x.default_sample_info_size = 0 then x.sample_count = x.sample_info_sizes.length
    else x.sample_info_sizes = []) ∧
   ∀ s ∈ x.sample_info_sizes, s < 256
-instance (x : Saiz) : Decidable x.Wf := by unfold Saiz.Wf; infer_instance
+instance instFrag7 (x : Saiz) : Decidable x.Wf := by unfold Saiz.Wf; infer_instance
 
 /-- `sample_count` + the per-sample sizes.  `encode_box_fields`:
 `if default == 0: self.sample_count = len(sizes)`; sizes only when `default == 0` -/
@@ -217,7 +217,7 @@ def Saio.Wf (x : Saio) : Prop :=
   optBound (hasBit x.flags 0) 4294967296 x.aux_info_type_parameter ∧
   x.offsets.length < 4294967296 ∧
   ∀ o ∈ x.offsets, o < wBound (x.version != 0)
-instance (x : Saio) : Decidable x.Wf := by unfold Saio.Wf; infer_instance
+instance instFrag8 (x : Saio) : Decidable x.Wf := by unfold Saio.Wf; infer_instance
 
 def encSaio (x : Saio) : Bytes :=
   encU8 x.version ++ (encU24 x.flags ++
